@@ -65,9 +65,18 @@ def rewrites(s, q, q2, aq, aq2):
         ("deepcopy", aq, lambda: copy.deepcopy(q)),
         ("pickle", aq, lambda: pickle.loads(pickle.dumps(q, 2))),
         ("simplify", aq, lambda: q.simplify(s.reader())),
+        # (a wrapper that carries an attribute next to its child must come through the generic rewrites)
+        ("weightingquery.with_boost", aq, lambda: _wq(q).with_boost(2.0)),
+        ("weightingquery.apply-identity", aq, lambda: _wq(q).apply(lambda x: x)),
+        ("weightingquery.accept-identity", aq, lambda: _wq(q).accept(lambda x: x)),
         ("parser-roundtrip-normalize", aq, lambda: q.normalize().normalize()),
     ]
     return out
+
+
+def _wq(q):
+    from whoosh import query, scoring
+    return query.WeightingQuery(q, scoring.Frequency())
 
 
 def _replace_elsewhere(q):
